@@ -594,8 +594,26 @@ def run(ctx):
             vars_ = {A.ref_id(A.kids(y)[0]) for y in A.walk(A.kids(x)[0]) if y.get("kind") == "MemberExpr" and y.get("name") == "name" and A.kids(y) and A.ref_id(A.kids(y)[0])}
             if len(vars_) == 2:
                 conds9.append((x, sorted(vars_)))
-    ctx.require(len(conds9) == 1, "R04.9: the duplicate test of MergePorts (a condition on the names of two ports) was not found (%d)" % len(conds9))
-    ifx, (va_, vb_) = conds9[0]
+    lookup9 = None
+    if not conds9:
+        # the test may be a lookup in the table built so far: `if(!(*this)[p.name]) ports.push_back(p);` - then the lookup
+        # function itself (Ports::operator[](const char*)) is evaluated with the earlier port as the table's only entry
+        for x in A.walk(u.body(fmg[0])):
+            if x.get("kind") == "IfStmt":
+                ops_ = [y for y in A.walk(A.kids(x)[0]) if y.get("kind") == "CXXOperatorCallExpr" and (A.strip_casts(A.kids(y)[0]).get("referencedDecl") or {}).get("name") == "operator[]" and
+                        any(z.get("kind") == "MemberExpr" and z.get("name") == "name" for z in A.walk(A.kids(y)[2]))]
+                if len(ops_) == 1:
+                    opfs = [f_ for q_, fl_ in u.functions.items() if q_.endswith("Ports::operator[]") for f_ in fl_ if u.body(f_) is not None and
+                            len(u.params(f_)) == 1 and "char" in (A.qtype(u.params(f_)[0]) or "")]
+                    if len(opfs) == 1:
+                        lookup9 = (x, ops_[0], opfs[0])
+    if lookup9 is not None:
+        ifx, opcall9, opf9 = lookup9
+        pushes_in_then = any(y.get("kind") == "CXXMemberCallExpr" and A.strip_casts(A.kids(y)[0]).get("name") in ("push_back", "emplace_back") for y in A.walk(A.kids(ifx)[1]))
+        va_, vb_ = "table entry", u.params(opf9)[0]["id"]
+    else:
+        ctx.require(len(conds9) == 1, "R04.9: the duplicate test of MergePorts (a condition on the names of two ports) was not found (%d)" % len(conds9))
+        ifx, (va_, vb_) = conds9[0]
     pairs9 = [("level:i", "level:i", True), ("level:i", "level:f", False), ("level", "level:f", False), ("level:f", "level", False), ("a", "ab", False), ("ab", "a", False),
               ("x#4/", "x#4/", True), ("x#4/", "x#3/", False), ("p::i", "p::i", True), ("p::i", "p::f", False), ("", "", True)]
     bad9 = []
@@ -644,6 +662,13 @@ def run(ctx):
             raise FD.Unknown("call to %s" % nm, n_)
 
         def hook9(n_, ev_, va_=va_, vb_=vb_):
+            if lookup9 is not None:
+                if n_ is opcall9 or n_.get("id") == opcall9.get("id"):
+                    return holder9["ev"].call_function(u, opf9, [BB])       # the incoming port's name is looked up
+                if n_.get("kind") == "MemberExpr" and n_.get("name") == "name" and A.kids(n_):
+                    return BA                                                 # ... in a table whose one entry is the earlier port
+                if n_.get("kind") == "UnaryOperator" and n_.get("opcode") == "&":
+                    return 0x7000                                             # the address of the entry found
             if n_.get("kind") == "MemberExpr" and n_.get("name") == "name" and A.kids(n_):
                 rid = A.ref_id(A.kids(n_)[0])
                 if rid == va_:
@@ -655,10 +680,21 @@ def run(ctx):
             if n_.get("kind") == "ImplicitCastExpr" and n_.get("castKind") == "ArrayToPointerDecay" and A.string_literal(A.kids(n_)[0]) is not None:
                 return A.string_literal(A.kids(n_)[0])
             return NotImplemented
-        ev9 = FD.Eval(deref=deref9, call=call9, node_hook=hook9, max_steps=2000)
+        def stmt9(n_, ev_):
+            # the table of the lookup: one entry
+            if lookup9 is None or n_.get("kind") != "CXXForRangeStmt":
+                return None
+            try:
+                ev_.run(A.kids(n_)[-1])
+            except (FD._Break, FD._Continue):
+                pass
+            return True
+        ev9 = FD.Eval(deref=deref9, call=call9, node_hook=hook9, stmt_hook=stmt9, max_steps=2000)
         holder9["ev"] = ev9
         try:
             got9 = bool(ev9.ev(A.kids(ifx)[0]))
+            if lookup9 is not None and pushes_in_then:
+                got9 = not got9                      # the condition guards the insertion: true = not a duplicate
         except FD.Unknown as e:
             raise AnalysisBroken("R04.9: the duplicate test of MergePorts is not evaluable on (%r, %r): %s" % (na, nb, e))
         if got9 != same:
